@@ -60,7 +60,13 @@ impl<T> EventSource for Park<'_, T> {
         let wait_co = &self.queue.wait_co;
         wait_co.store(Blocker::new_coroutine(co));
         // re-check the state, only clear once after resume
-        if !self.queue.queue.is_empty() {
+        // also re-check the disconnect: the sender could be dropped after our
+        // failed `try_recv` and before the store above, then its `take` in
+        // `drop_chan` found nothing and nobody would ever wake us up.
+        // `wait_co.store` (a swap, `Blocker: Drop`) and their `wait_co.take`
+        // are AcqRel RMWs on the same word: either their take gets our blocker
+        // or our swap synchronizes with it and we see their write below.
+        if !self.queue.queue.is_empty() || self.queue.channels.load(Ordering::Acquire) == 0 {
             if let Some(co) = wait_co.take() {
                 run_coroutine(co.into_coroutine());
             }
@@ -191,7 +197,9 @@ impl<T> InnerQueue<T> {
         match self.queue.pop() {
             Some(data) => Ok(data),
             None => {
-                if likely(self.channels.load(Ordering::Relaxed) > 0) {
+                // Acquire: pairs with the Release store in `drop_chan` so that
+                // the re-check below sees everything the sender has pushed
+                if likely(self.channels.load(Ordering::Acquire) > 0) {
                     Err(TryRecvError::Empty)
                 } else {
                     // there is no sender any more, should re-check
@@ -202,7 +210,8 @@ impl<T> InnerQueue<T> {
     }
 
     fn drop_chan(&self) {
-        self.channels.store(0, Ordering::Relaxed);
+        // Release: all the pushed data is visible to who observes the disconnect
+        self.channels.store(0, Ordering::Release);
         if let Some(co) = self.wait_co.take() {
             co.unpark();
         }
